@@ -174,6 +174,9 @@ func genHNSW(r *core.Rand, tier string) *hnswCase {
 		}
 	}
 	c.EfC, c.EfS = pickEf(), pickEf()
+	if target > 600 { // thousands of vertices: keep one case within the per-case time limit
+		c.EfC, c.EfS = min(c.EfC, 512), min(c.EfS, 512)
+	}
 	if small && r.Chance(0.8) {
 		c.EfC, c.EfS = max(c.EfC, target+r.Range(0, 2)), max(c.EfS, target+r.Range(0, 2))
 	}
@@ -357,6 +360,7 @@ func genHNSW(r *core.Rand, tier string) *hnswCase {
 // hnswSnap mirrors the exported graph between ops so that only changes are sent.
 type hnswSnap struct {
 	edges map[uint32][][]uint32
+	tomb  []uint32 // ids soft-deleted right now (recomputed from the export after every op)
 }
 
 func idList(l []uint32) string {
@@ -391,8 +395,12 @@ func (sn *hnswSnap) tail(idx *comet.HNSWIndex) string {
 	entry, maxLevel, _, _ := idx.VerifHNSWMeta()
 	fmt.Fprintf(&b, " ; %d %d", entry, maxLevel)
 	seen := make(map[uint32]bool, len(sn.edges))
+	sn.tomb = sn.tomb[:0]
 	idx.VerifHNSWVisit(func(key, id uint32, level int, deleted bool, edges [][]uint32) {
 		seen[key] = true
+		if deleted {
+			sn.tomb = append(sn.tomb, key)
+		}
 		old, ok := sn.edges[key]
 		if !ok || len(old) != len(edges) {
 			cp := make([][]uint32, len(edges))
@@ -508,7 +516,7 @@ func execHNSW(c *hnswCase) []string {
 		return append(lines, "op panic constructor: "+err.Error(), "end")
 	}
 	sn := &hnswSnap{edges: map[uint32][][]uint32{}}
-	var added, tomb []uint32
+	var added []uint32
 	nextLevel := -1
 	comet.VerifSetHNSWLevelSource(idx, func() (int, bool) { return nextLevel, nextLevel >= 0 })
 	defer comet.VerifSetHNSWLevelSource(idx, nil)
@@ -518,8 +526,8 @@ func execHNSW(c *hnswCase) []string {
 			raw := core.FromBits(cmd.Vec)
 			arg := append([]float32(nil), raw...)
 			id := cmd.ID
-			if cmd.Target == "readd" && len(tomb) > 0 {
-				id = tomb[cmd.R%len(tomb)]
+			if cmd.Target == "readd" && len(sn.tomb) > 0 {
+				id = sn.tomb[cmd.R%len(sn.tomb)]
 			}
 			nextLevel = cmd.Level
 			err := idx.Add(*comet.NewVectorNodeWithID(id, arg))
@@ -528,8 +536,7 @@ func execHNSW(c *hnswCase) []string {
 				lv, _ := idx.VerifHNSWLevel(id)
 				out = fmt.Sprintf("ok %d", lv)
 				if id != cmd.ID {
-					tomb = tomb[:0]          // the re-add flushed every tombstone
-					delete(sn.edges, id) // report the new vertex in full
+					delete(sn.edges, id) // a re-added id: report the new vertex in full
 				} else {
 					added = append(added, id)
 				}
@@ -538,13 +545,9 @@ func execHNSW(c *hnswCase) []string {
 		case "remove":
 			id := resolveTarget(idx, cmd, added, c.NoEntry)
 			err := idx.Remove(*comet.NewVectorNodeWithID(id, nil))
-			if err == nil {
-				tomb = append(tomb, id)
-			}
 			lines = append(lines, fmt.Sprintf("op remove %d => %s%s", id, vecErr(err), sn.tail(idx)))
 		case "flush":
 			err := idx.Flush()
-			tomb = tomb[:0]
 			lines = append(lines, "op flush => "+vecErr(err)+sn.tail(idx))
 		case "graph":
 			lines = append(lines, hnswGraphLine(idx))
@@ -605,7 +608,7 @@ func nonTrivialHNSW(lines, replies []string) bool {
 func init() {
 	register(&core.Typed[hnswCase]{
 		StreamName: "hnsw", Prop: "C12",
-		RuleText: "Add/Remove/Flush histories on a real HNSWIndex (M 2..32, efConstruction/efSearch from M to 4n, dims 1..32, 3 metrics; Gaussian, clustered and duplicate-heavy data; distinct ids; removal targets resolved against the implementation: current entry point, highest level, highest layer-0 in-degree, random, absent); after every op the exported graph must equal the model's; a case is non-trivial when at least 3 additions with >= 3 resident vertices matched the model's graph exactly AND some search returned a non-empty answer that the model reproduced (and, in the small regime, the flat specification confirmed as exact) AND no known finding was hit; distinct = distinct request streams",
+		RuleText: "Add/Remove/Flush histories on a real HNSWIndex (M 2..32, efConstruction/efSearch from M to 4n (capped at 512 in the cases with more than 600 vertices), dims 1..32, 3 metrics; Gaussian, clustered and duplicate-heavy data; distinct ids; removal targets resolved against the implementation: current entry point, highest level, highest layer-0 in-degree, random, absent); after every op the exported graph must equal the model's; a case is non-trivial when at least 3 additions with >= 3 resident vertices matched the model's graph exactly AND some search returned a non-empty answer that the model reproduced (and, in the small regime, the flat specification confirmed as exact) AND no known finding was hit; distinct = distinct request streams",
 		NCases: func(tier string) int {
 			if tier == "thorough" {
 				return 2500
